@@ -10,6 +10,7 @@
      X cps                  without_initiators              -> P | s e
      N cps | entry ...      Unit::parse                     -> P | s e k ...
      J cps | entry ...      JsDoc::parse (line loop, inline tags, block tag) -> P | s e k ...
+     U cps | tree | entry ...  Typst::parse over the abstract tree (prefix form, see Model/C04Typst.v) -> P | s e k ...
      V cps | entry          JavaDoc::parse (entry = HtmlParser on the content without initiators) -> P | s e k ...
      G cps | entry ...      Go::parse                       -> P | s e k ...
      L w | cps              LHS masker (w=1 text_only, 0 code_only) -> P | s e ...
@@ -71,6 +72,7 @@ let () =
          | Some (a, b) -> print_endline (string_of_int (int_of_nat a) ^ " " ^ string_of_int (int_of_nat b)))
     | 'N', t :: entries -> out_triples (run_unit_parse (List.map entry entries) (text_of_line t))
     | 'J', t :: entries -> out_triples (run_jsdoc_full (List.map entry entries) (text_of_line t))
+    | 'U', t :: tree :: entries -> out_triples (run_typst (List.map entry entries) (text_of_line t) (text_of_line tree))
     | 'V', t :: entries -> out_triples (run_javadoc (List.map entry entries) (text_of_line t))
     | 'G', t :: entries -> out_triples (run_go_parse (List.map entry entries) (text_of_line t))
     | 'L', [w; t] -> out_pairs (run_lhs_mask (String.trim w = "1") (text_of_line t))
